@@ -84,14 +84,77 @@ def through_the_cache(c):
                      {"cache_session": scheds[sess]})
 
 
+def failing_calls(c):
+    """A pull whose repository calls fail (Crash.tla ErrSafe; harness/crashx/errors.go): for every pull scenario of the crash
+    catalogue (and generated pulls of random mixtures) each call the pull makes on the repository - reads, clock operations,
+    object and ref writes, the replacement of a clock file - fails in turn; the pull reports it or carries on. TLC judges what
+    is found afterwards: nothing lost, nothing half-merged, everything readable, a repeated pull completes."""
+    import json
+    import os
+    from . import tv
+    out = os.path.join(c.scratch, "pull-errors.ndjson")
+    c.vh(["crash-errors", out, 1 if c.tier == "quick" else 60], timeout=3200)
+    lines = [l.rstrip("\n") for l in open(out)]
+    recs = [json.loads(l) for l in lines]
+    if len(recs) < 300 or len({r["errkind"] for r in recs}) < 12:
+        raise Broken("only %d failing calls of %d kinds" % (len(recs), len({r["errkind"] for r in recs})))
+    n_ok, failures = tv.validate_dropping(c, "CrashErrTrace", "CrashErrTrace.cfg", lines, "pull-errors", max_fail=30)
+    c.cov["failing_calls_validated"] = n_ok
+    c.cov["failing_call_kinds"] = sorted({r["errkind"] for r in recs})
+    c.cov["failing_call_scenarios"] = len({r["scenario"] for r in recs})
+    c.cov["failing_calls_not_reported"] = sum(1 for r in recs if not r["reported"])
+    seen = set()
+    for ev, reason in failures:
+        bad = {e: v for e, v in ev["outcome"].items() if v == "other"}
+        if ev["openerr"] or ev["readerr"]:
+            what = "afterwards the repository does not open / an entity is unreadable: " + (ev["openerr"] or ev["readerr"])
+        elif bad:
+            what = "entity %s is neither in its state before the pull nor in its merged state: %s" % (", ".join(sorted(bad)), ev["state"][:400])
+        elif not ev["clockok"]:
+            what = "clocks: " + ev["clockwhy"]
+        elif ev["redo"] == "other":
+            what = "repeating the pull does not complete it: " + ev["redoerr"][:300]
+        else:
+            what = "entities are not in the state the ref updates made prescribe: %s (refs moved: %s)" % (
+                {e: v for e, v in ev["outcome"].items() if v != "unchanged"}, [m["ent"] for m in ev["done"] if m["ent"]])
+        key = "pull-error:%s:%s:%s" % (ev["scenario"].split(":")[0] + (":pull" if ev["scenario"].startswith("gen:") else ""), ev["errkind"], what.split(":")[0][:50])
+        if key in seen:
+            continue
+        seen.add(key)
+        c.report(key, "scenario %s, call %d of %d (%s) fails%s: %s" % (ev["scenario"], ev["errat"], ev["ncalls"], ev["errkind"],
+                                                                          "" if ev["reported"] else " (the pull reports no error)", what),
+                 {"pull_error": {"scenario": ev["scenario"], "errat": ev["errat"]}})
+    cand = [r for r in recs if "pre" in r["outcome"].values()][0]
+    bad = json.loads(json.dumps(cand))
+    e = [e for e, v in bad["outcome"].items() if v == "pre"][0]
+    bad["outcome"][e] = "other"
+    n2, f2 = tv.validate_dropping(c, "CrashErrTrace", "CrashErrTrace.cfg", [json.dumps(bad)], "pull-errors-selftest", max_fail=1)
+    if len(f2) != 1:
+        raise Broken("failing-call self-test: a lost entity state was accepted")
+
+
 def run(c):
     identities(c)
     through_the_cache(c)
+    failing_calls(c)
     c01.run(c, inv=INV, bind=(False, True, False), sched_fn=schedules, mut=mutate, cls=classify)
     c.cov["traces_validated_against_impl"] += c.cov.get("identity_traces_validated", 0) + c.cov.get("cache_sessions_validated", 0)
 
 
 def replay(c, rep):
+    if "pull_error" in rep["replay"]:
+        import json
+        import os
+        from . import tv
+        c.cov["states"] = c.cov["transitions"] = 1
+        c.sample(rep["replay"])
+        out = os.path.join(c.scratch, "pull-errors.ndjson")
+        c.vh(["crash-errors", out, 0, rep["replay"]["pull_error"]["scenario"], rep["replay"]["pull_error"]["errat"]], timeout=1200)
+        lines = [l.rstrip("\n") for l in open(out)]
+        n_ok, failures = tv.validate_dropping(c, "CrashErrTrace", "CrashErrTrace.cfg", lines, "replay")
+        for ev, reason in failures:
+            c.report(rep["key"], "scenario %s, call %d (%s) fails: %s" % (ev["scenario"], ev["errat"], ev["errkind"], ev["state"][:300]), rep["replay"])
+        return
     if "cache_session" in rep["replay"]:
         from . import c11
         rep2 = dict(rep)
